@@ -376,10 +376,13 @@ var scalarTypes = []reflect.Type{
 	reflect.TypeOf(float32(0)), reflect.TypeOf(float64(0)), reflect.TypeOf(""),
 }
 
+// byte array lengths: small ones, and the digest sizes an implementation might special-case
+var byteArrayLens = []int{0, 1, 2, 3, 4, 8, 16, 20, 32, 33}
+
 func randKeyType(r *rand.Rand, depth int) reflect.Type {
 	switch r.Intn(10) {
 	case 0:
-		return reflect.ArrayOf(1+r.Intn(3), reflect.TypeOf(byte(0)))
+		return reflect.ArrayOf(byteArrayLens[1+r.Intn(len(byteArrayLens)-1)], reflect.TypeOf(byte(0)))
 	case 1:
 		if depth > 0 {
 			return reflect.StructOf([]reflect.StructField{{Name: "K0", Type: randKeyType(r, 0)}, {Name: "K1", Type: randKeyType(r, 0)}})
@@ -409,7 +412,7 @@ func randType(r *rand.Rand, depth int) reflect.Type {
 		case 0:
 			return bytesTy
 		case 1:
-			return reflect.ArrayOf(r.Intn(5), reflect.TypeOf(byte(0)))
+			return reflect.ArrayOf(byteArrayLens[r.Intn(len(byteArrayLens))], reflect.TypeOf(byte(0)))
 		case 2:
 			return catalogueTypes[r.Intn(len(catalogueTypes))]
 		case 3:
@@ -582,6 +585,24 @@ func randGoValue(r *rand.Rand, t reflect.Type, depth int) reflect.Value {
 		n := r.Intn(4)
 		for i := 0; i < n; i++ {
 			k := randGoValue(r, t.Key(), 1)
+			if t.Key().Kind() == reflect.Interface {
+				// arrays held in an interface-typed key: byte arrays travel as one bytes token; other arrays are
+				// decoded schema-less into an unhashable []any (recorded finding iface-key-composite)
+				switch r.Intn(12) {
+				case 0, 1, 2:
+					a := reflect.New(reflect.ArrayOf(byteArrayLens[r.Intn(len(byteArrayLens))], reflect.TypeOf(byte(0)))).Elem()
+					for j := 0; j < a.Len(); j++ {
+						a.Index(j).SetUint(uint64(r.Intn(256)))
+					}
+					k = reflect.New(t.Key()).Elem()
+					k.Set(a)
+				case 3:
+					if t.Key() == anyType {
+						k = reflect.New(t.Key()).Elem()
+						k.Set(reflect.ValueOf([2]int{r.Intn(3), r.Intn(3)}))
+					}
+				}
+			}
 			if hasNaNOrNilKey(k) || !selfEqual(k) {
 				continue // keys that are not equal to themselves (NaN somewhere inside) cannot be looked up again
 			}
@@ -789,4 +810,51 @@ func sortedMapKeys(m reflect.Value) []reflect.Value {
 	ks := m.MapKeys()
 	sort.Slice(ks, func(i, j int) bool { return fmt.Sprint(ks[i]) < fmt.Sprint(ks[j]) })
 	return ks
+}
+
+// an interface-typed map key holding an array that is not a byte array: it is marshalled as an Array,
+// which schema-less key decoding turns into an unhashable []any (known finding iface-key-composite)
+func hasCompositeIfaceKey(v reflect.Value) bool {
+	switch v.Kind() {
+	case reflect.Ptr, reflect.Interface:
+		return !v.IsNil() && hasCompositeIfaceKey(v.Elem())
+	case reflect.Slice, reflect.Array:
+		for i := 0; i < v.Len(); i++ {
+			if hasCompositeIfaceKey(v.Index(i)) {
+				return true
+			}
+		}
+	case reflect.Map:
+		it := v.MapRange()
+		for it.Next() {
+			k := it.Key()
+			if k.Kind() == reflect.Interface && !k.IsNil() {
+				if e := k.Elem(); e.Kind() == reflect.Array && e.Type().Elem() != reflect.TypeOf(byte(0)) {
+					return true
+				}
+			}
+			if hasCompositeIfaceKey(k) || hasCompositeIfaceKey(it.Value()) {
+				return true
+			}
+		}
+	case reflect.Struct:
+		if v.Type() == timeType {
+			return false
+		}
+		for i := 0; i < v.NumField(); i++ {
+			if v.Type().Field(i).PkgPath == "" && hasCompositeIfaceKey(v.Field(i)) {
+				return true
+			}
+		}
+	case reflect.Func:
+		if v.IsNil() {
+			return false
+		}
+		for _, o := range accessible(v).Call(nil) {
+			if hasCompositeIfaceKey(o) {
+				return true
+			}
+		}
+	}
+	return false
 }
